@@ -12,7 +12,7 @@ Names are numbers (alphabetical rank of the entity name, assigned by the caller)
     eval n n ..                -> E 0 | E 1         Complex.evalB (plain meaning of the current collect)
     n n n ..                   -> N n n ..          the EntNode list the constructor builds
     rs n n ..                  -> N n n .. | R crash:<site>   EntNode::sort on the list as it is after renaming
-    consts                     -> K nullsafe=<0|1> sortns=<0|1>   regenerated switches the model runs with
+    consts                     -> K nullsafe=<0|1> sortns=<0|1> listend=<n>   regenerated switches the model runs with
     schema <k> {name abs k s.. m t.. expr|-}*       -> S k   set the schema (expr prefix code: e:<n> | o<k> .. | a . . | x . .)
     collect                    -> T C[ ... ] | T none        Build.collectOf of the schema
     legal n n ..               -> L 0 | L 1         Spec.Legal of the schema
@@ -44,7 +44,7 @@ def parseTree : Nat → List String → Option (Tree × List String)
         | _ => match parseTree f toks with
           | some (t, rest') => kids g rest' (t :: acc)
           | none => none
-    match kids (f + 1) rest [] with
+    match kids (rest.length + 1) rest [] with
     | some (cs, rest') =>
       if op = "A" then some (.and cs, rest') else if op = "O" then some (.or cs, rest')
       else if op = "X" then some (.andor cs, rest') else none
@@ -186,7 +186,7 @@ def handle (s : DState) (line : String) : DState × String :=
          let known := match e.expr with | none => [] | some _ => e.name :: leavesL b
          e.subs.filter (fun n => !known.contains n) == e.implicit))
     (s, if ok then "I 1" else "I 0")
-  | ["consts"] => (s, s!"K nullsafe={if StepModel.Generated.tryNextNullSafe then 1 else 0} sortns={if StepModel.Generated.sortNonStrict then 1 else 0}")
+  | ["consts"] => (s, s!"K nullsafe={if StepModel.Generated.tryNextNullSafe then 1 else 0} sortns={if StepModel.Generated.sortNonStrict then 1 else 0} listend={StepModel.Generated.listEnd}")
   | "rs" :: rest =>
     match nats rest with
     | some (n :: ns) =>
